@@ -66,7 +66,7 @@ def run_case(ctx, rep, spec, field, dtype, limit, order_id, model, path=None, tr
         nz = int(np.count_nonzero(arr)) if arr.size else 0
         rep.fail(f"saved array (shape {arr.shape}, {nz} non-zero cells) is not the covering grid of level {L}", case)
         return
-    if model and dtype == "float64" and spec["data"]["mode"] == "tags" and arr.size <= 40000:
+    if model and dtype == "float64" and spec["data"]["mode"] == "tags" and arr.size <= 40000 and not spec["data"].get("plant"):
         m = leanio.driver([{"op": "cover", "levels": geom.model_levels(spec, truth, names[field], L), "L": L,
                             "shape": list(arr.shape)}])[0]
         if m["vals"] == [int(x) for x in arr.flatten(order="F")]:
@@ -95,6 +95,10 @@ def run(ctx, rep, model=True):
             # field names that differ only in the case of a letter (PeleLMeX: `Temp` and `temp`, `rhoh` and `rhoH`)
             spec["fields"][0], spec["fields"][-1] = [("Temp", "temp"), ("rhoh", "rhoH"), ("y(oh)", "Y(OH)")][(i // 3) % 3]
             rep.count("names-differing-by-case")
+        if i % 4 == 1:
+            spec["data"]["plant"] = "nan-fine"; rep.count("nan-stored-in-fine-cells-over-finite-coarse-cells")
+        if i % 4 == 3:
+            spec["data"]["plant"] = "fab-bytes"; rep.count("finite-value-whose-bytes-spell-FAB")
         path = place(ctx, spec)
         truth = plotgen.materialize(spec, path)
         names = list(dedup_names(spec["fields"]))
@@ -104,6 +108,7 @@ def run(ctx, rep, model=True):
             field = names[o % len(names)]
             dtype = ["float64", "float32"][o % 2 if o > 1 else 0]
             limit = [None, None, nlev - 1, 0, max(nlev - 2, 0), None][o % 6]
+            # (the covering-grid model works on integer tags: plotfiles with planted NaN / byte patterns go to the oracle only)
             run_case(ctx, rep, spec, field, dtype, limit, o * 5 + i, model, path, truth, orders)
         if len(rep.violations) >= 10:
             return
